@@ -13,7 +13,7 @@ func init() {
 	Props["C06"] = Prop{
 		Title: "Panic and Fatal always terminate, after the entry is written and flushed",
 		Fn:    checkC06,
-		Explanation: "Decides the must-pass-through structure behind 'always terminates': in Logger.check the only early nil return is under lvl < DPanic, the Panic/Fatal arms attach terminalHookOverride(default, configured) with no further guard and the DPanic arm exactly under development, before the !willWrite return; terminalHookOverride replaces nil and WriteThenNoop by the default; " +
+		Explanation: "Decides the must-pass-through structure behind 'always terminates': in Logger.check the only early nil return is under lvl < DPanic; the terminal-hook decision is evaluated per level: for each of the 9 level values (7 named, one below, one above) x development on/off, Logger.check (with the helpers it calls) is explored with the level and the flag fixed and every other condition free, and on every remaining path a Panic/Fatal (DPanic iff development) entry calls Core.Check, attaches exactly one terminalHookOverride(<default action>, <configured hook>) to the checked entry and returns that entry, while every other level attaches none - whatever the form (switch, if-chain, helper returning the hook); terminalHookOverride replaces nil and WriteThenNoop by the default; " +
 			"every front-end method (Logger, SugaredLogger, zapgrpc.Logger, std-log bridge table and writer) routes its own level constant to check/log/logln and reaches CheckedEntry.Write unless ce == nil, with no illegal Enabled pre-check; CheckedEntry.Write visits all cores, then runs the hook, then recycles the entry; ioCore.Write syncs after the sink write for a level set containing DPanic/Panic/Fatal and BufferedWriteSyncer.Sync always reaches WS.Sync; the default actions are panic(message), exit.With(1) -> os.Exit, Goexit, and nothing outside the stub helpers writes the exit function. " +
 			"NOT decided: that os.Exit exits, durability of the sink itself, user hooks that return, real crash points.",
 		Assumptions: commonAssumptions,
